@@ -290,11 +290,17 @@ func (e *EndpointInfo) IsReady() bool {
 }
 
 func (e *EndpointInfo) UnreadyReason() string {
+	// Pop() calls this for every request while the health check writes the status:
+	// read the fields under the status lock, a torn reason/message string makes fmt panic
+	e.status.mux.RLock()
+	disabled, healthy, reason, msg := e.status.Disabled, e.status.Healthy, e.status.Reason, e.status.Message
+	e.status.mux.RUnlock()
+
 	message := ""
-	if e.status.Disabled {
+	if disabled {
 		message = fmt.Sprintf("endpoint=%q is disabled.", e.Endpoint)
-	} else if !e.status.Healthy {
-		message = fmt.Sprintf("endpoint=%q is unhealthy, reason=%q, message=%q.", e.Endpoint, e.status.Reason, e.status.Message)
+	} else if !healthy {
+		message = fmt.Sprintf("endpoint=%q is unhealthy, reason=%q, message=%q.", e.Endpoint, reason, msg)
 	}
 	return message
 }
